@@ -1078,6 +1078,9 @@ EXPLANATION += (
 EXPLANATION += (
     " R2b: the classifier's 'cannot trap' verdicts must not rest on variable types that later statements can change: it reports the combination 'classify_expr reaches the table of recorded variable types' and 'checker routines overwrite entries of that table after the declaration' (open known finding D35: the checker is single-pass)."
 )
+EXPLANATION += (
+    " R2 (rewritten after D40): traps of the expression arms are split by what they depend on - a value (division by zero, index range: may-trap on every path, an exemption by value fails closed) or a run-time type (Type mismatch: the arm may stay trap-free only on the positive side of a test on inferred static types, and every static type that test lets through is checked against the runtime's table obtained by partial evaluation - no Type mismatch outcome for an operator the checker accepts on those types); a global built-in that fails only on an argument's type may be answered by a typed may-trap join in classify_expr."
+)
 ASSUMPTIONS = ["the tables in effects.rs are the only source of built-in effect classes", "user-function effects enter only through summaries (direct_callees)"]
 TRUSTED = ["rustc nightly MIR/HIR", "nsx exporter", "nsverif table extraction (constant propagation over acyclic table functions)"]
 NONTRIVIAL = "one obligation per push site clause, per built-in variant, per join cell and per equation-order clause; distinct = distinct clause"
